@@ -141,6 +141,27 @@ def build_cases(ctx, exe, base, corpus, nper):
             with open(os.path.join(d, n), "wb") as f:
                 f.write(data)
         boxes.append({"dir": d, "cfg": cfgp, "L": "C", "files": files, "ext": ".c", "src": "synthetic-newlines-" + tag})
+    # synthetic directory: encodings whose formatted bytes contain NUL / high bytes / a BOM (UTF-16 LE/BE, UTF-8 with BOM, Latin-1),
+    # each as a text that needs re-formatting and as its own formatted version
+    d = os.path.join(base, "syn-enc")
+    os.makedirs(d)
+    cfgp = os.path.join(d, "enc.cfg")
+    with open(cfgp, "w") as f:
+        f.write("indent_columns=3\nindent_with_tabs=0\n")
+    txt = "int   a ;  /* caf\u00e9 */\nvoid f(void){a=1;\n if(a){a=2;}}\n"
+    files = {"u16le.c": b"\xff\xfe" + txt.encode("utf-16-le"), "u16be.c": b"\xfe\xff" + txt.encode("utf-16-be"),
+             "u16le-nobom.c": txt.encode("utf-16-le"), "u8bom.c": b"\xef\xbb\xbf" + txt.encode("utf-8"), "u8.c": txt.encode("utf-8"),
+             "latin1.c": txt.encode("latin-1")}
+    for n, data in list(files.items()):
+        with open(os.path.join(d, n), "wb") as f:
+            f.write(data)
+        r = clibox.run_real(exe, d, ["-q", "-c", cfgp, "-l", "C", "-f", n])
+        if r.rc == 0:
+            files[n.replace(".c", "-fmt.c")] = r.out
+    for n, data in files.items():
+        with open(os.path.join(d, n), "wb") as f:
+            f.write(data)
+    boxes.append({"dir": d, "cfg": cfgp, "L": "C", "files": files, "ext": ".c", "src": "synthetic-encodings"})
     # normal run of every file
     jobs = [(b, n) for b in boxes for n in b["files"]]
     res = common.pmap(lambda j: clibox.run_real(exe, j[0]["dir"], ["-q", "-c", j[0]["cfg"], "-l", j[0]["L"], "-f", j[1]]), jobs)
